@@ -36,6 +36,9 @@ func lexFmt(s string) ([]tok, error) {
 		switch {
 		case c == ' ':
 			i++
+		case c == '%' && i+1 < len(s) && s[i+1] == '%':
+			ts = append(ts, tok{"op", "%"}) // `%%` prints the SQL remainder operator
+			i += 2
 		case c == '%' && i+1 < len(s) && (s[i+1] == 'd' || s[i+1] == 's'):
 			ts = append(ts, tok{"hole", string(s[i+1])})
 			i += 2
@@ -104,7 +107,7 @@ func (p *parser) term() (*node, error) {
 	if err != nil {
 		return nil, err
 	}
-	for p.isOp("*") || p.isOp("//") {
+	for p.isOp("*") || p.isOp("//") || p.isOp("%") {
 		op := p.peek().v
 		p.p++
 		b, err := p.postfix()
@@ -187,6 +190,12 @@ func toLean(n *node, args []string) (string, error) {
 		if n.verb == "d" && args[n.idx] == "seconds" {
 			return ".seconds", nil
 		}
+		if n.verb == "d" && args[n.idx] == "originMicros" {
+			return ".originMicros", nil
+		}
+		if n.verb == "d" && args[n.idx] == "widthMicros" {
+			return ".widthMicros", nil
+		}
 		return "", fmt.Errorf("hole %%%s bound to %q outside epoch(...)::BIGINT", n.verb, args[n.idx])
 	case "cast":
 		if n.name == "BIGINT" && n.a.kind == "call" && n.a.name == "epoch" && n.a.a.kind == "hole" &&
@@ -195,6 +204,9 @@ func toLean(n *node, args []string) (string, error) {
 		}
 		return "", fmt.Errorf("unsupported cast ::%s", n.name)
 	case "call":
+		if n.name == "epoch_us" && n.a.kind == "hole" && n.a.verb == "s" && n.a.idx < len(args) && args[n.a.idx] == "column" {
+			return ".epochUsCol", nil
+		}
 		if n.name == "to_timestamp" {
 			a, err := toLean(n.a, args)
 			if err != nil {
@@ -212,7 +224,7 @@ func toLean(n *node, args []string) (string, error) {
 		if err != nil {
 			return "", err
 		}
-		op := map[string]string{"+": "add", "-": "sub", "*": "mul", "//": "idiv"}[n.name]
+		op := map[string]string{"+": "add", "-": "sub", "*": "mul", "//": "idiv", "%": "mod"}[n.name]
 		return "(." + op + " " + a + " " + b + ")", nil
 	}
 	return "", fmt.Errorf("bad node")
@@ -510,11 +522,26 @@ func c17(repo string, out *fg.Out) error {
 		`origin := parts[4]`,
 		`originTime, err := parseTimeBucketOrigin(origin)`,
 		`if err != nil { return match`,
-		`originEpoch := originTime.Unix()`)...); err != nil {
+		`if originTime.Nanosecond() != 0 {`,
+		`originEpoch := originTime.Unix()`,
+		`widthMicros := int64(seconds) * 1000000`,
+		`originMicros := (originEpoch * 1000000) % widthMicros`)...); err != nil {
 		return err
 	}
 	if err := expectSnippets(qf, fl2, "rewriteTimeBucket/2-arg", common...); err != nil {
 		return err
+	}
+	guardOK := false
+	ast.Inspect(fl3, func(n ast.Node) bool {
+		if is, ok := n.(*ast.IfStmt); ok && norm(qf.Text(is.Cond)) == "originTime.Nanosecond() != 0" && len(is.Body.List) == 1 {
+			if ret, ok := is.Body.List[0].(*ast.ReturnStmt); ok && len(ret.Results) == 1 && qf.Text(ret.Results[0]) == "match" {
+				guardOK = true
+			}
+		}
+		return true
+	})
+	if !guardOK {
+		return fmt.Errorf("rewriteTimeBucket/3-arg: `if originTime.Nanosecond() != 0 { return match }` not found")
 	}
 	fmt3, args3, err := sprintfOf(fl3)
 	if err != nil {
@@ -618,52 +645,80 @@ func c17(repo string, out *fg.Out) error {
 		return fmt.Errorf("query.go: `sql = rewriteTimeBucket(sql); sql = rewriteDateTrunc(sql)` call sites not found")
 	}
 
-	// ---- regex_rewriter.go: buildURLDomainCASE arms + trigger conditions
-	rf, bcase := fg.FindFunc(files, "", "buildURLDomainCASE")
+	// ---- regex_rewriter.go: buildURLDomainCASEExact (guarded arms, ELSE = original call) + exact-pattern triggers
+	rf, bcase := fg.FindFunc(files, "", "buildURLDomainCASEExact")
 	if bcase == nil {
-		return fmt.Errorf("func buildURLDomainCASE not found")
+		return fmt.Errorf("func buildURLDomainCASEExact not found")
 	}
-	caseFmt, caseArgs, err := sprintfOf(bcase)
-	if err != nil {
-		return fmt.Errorf("buildURLDomainCASE: %v", err)
+	if err := expectSnippets(rf, bcase, "buildURLDomainCASEExact",
+		`func buildURLDomainCASEExact(column, original string, needSlash bool) string`,
+		`like, guard := "_%", ""`,
+		`if needSlash { like, guard = "_%/%", fmt.Sprintf(" AND position(chr(10) in %s) = 0", column) }`,
+		`b.WriteString("CASE ")`,
+		`column, p, like, column, len(p)+1, guard, column, len(p)+1)`,
+		`return b.String() + "ELSE " + original + " END"`); err != nil {
+		return err
 	}
-	for _, a := range caseArgs {
-		if a != "column" {
-			return fmt.Errorf("buildURLDomainCASE: argument %s is not `column`", a)
+	var casePrefixes []string
+	caseWhenFmt := ""
+	ast.Inspect(bcase, func(n ast.Node) bool {
+		switch x := n.(type) {
+		case *ast.RangeStmt:
+			if cl, ok := x.X.(*ast.CompositeLit); ok {
+				for _, e := range cl.Elts {
+					if v, ok := strConst(e); ok {
+						casePrefixes = append(casePrefixes, v)
+					}
+				}
+			}
+		case *ast.CallExpr:
+			if fg.CalleeName(x) == "Fprintf" && len(x.Args) >= 2 {
+				if v, ok := strConst(x.Args[1]); ok {
+					caseWhenFmt = v
+				}
+			}
 		}
+		return true
+	})
+	if len(casePrefixes) == 0 || caseWhenFmt == "" {
+		return fmt.Errorf("buildURLDomainCASEExact: prefix list / WHEN format not found")
 	}
-	armRe := regexp.MustCompile(`WHEN %s LIKE '([^'%]*)%%' THEN split_part\(substr\(%s, (\d+)\), '/', 1\) `)
-	arms := armRe.FindAllStringSubmatch(caseFmt, -1)
-	rebuilt := "CASE "
 	type arm struct {
 		Prefix string `json:"prefix"`
 		Start  int    `json:"start"`
 	}
 	var armList []arm
-	for _, a := range arms {
-		rebuilt += a[0]
-		k, _ := strconv.Atoi(a[2])
-		armList = append(armList, arm{a[1], k})
+	for _, p := range casePrefixes {
+		armList = append(armList, arm{p, len(p) + 1})
 	}
-	rebuilt += "ELSE split_part(%s, '/', 1) END"
-	if rebuilt != caseFmt || len(armList) == 0 {
-		return fmt.Errorf("buildURLDomainCASE: format is not `CASE (WHEN %%s LIKE '<p>%%%%' THEN split_part(substr(%%s, <k>), '/', 1) )+ELSE split_part(%%s, '/', 1) END`: %q", caseFmt)
-	}
-	if len(caseArgs) != 2*len(armList)+1 {
-		return fmt.Errorf("buildURLDomainCASE: %d arguments for %d arms", len(caseArgs), len(armList))
-	}
-	var urlTriggers []string
-	for _, fn := range []string{"rewriteURLDomainExtraction", "rewriteURLDomainExtractionExtract"} {
+	var urlTriggers, urlCanon []string
+	for i, fn := range []string{"rewriteURLDomainExtraction", "rewriteURLDomainExtractionExtract"} {
 		_, fd := fg.FindFunc(files, "", fn)
 		if fd == nil {
 			return fmt.Errorf("func %s not found", fn)
 		}
+		ns := []string{"true", "false"}[i]
 		if err := expectSnippets(rf, fd, fn,
 			`column := parts[1]`, `pattern := parts[2]`,
-			`if !strings.Contains(strings.ToLower(pattern), "https") || (!strings.Contains(pattern, "[^/]") && !strings.Contains(pattern, "[^\\/]")) { return match }`,
-			`return buildURLDomainCASE(column)`); err != nil {
+			"if strings.ReplaceAll(pattern, `\\/`, \"/\") != `",
+			`return buildURLDomainCASEExact(column, match, `+ns+`)`); err != nil {
 			return err
 		}
+		canon := ""
+		ast.Inspect(fd, func(n ast.Node) bool {
+			if be, ok := n.(*ast.BinaryExpr); ok && be.Op == token.NEQ {
+				if c, ok := be.X.(*ast.CallExpr); ok && fg.CalleeName(c) == "ReplaceAll" {
+					if v, ok := strConst(be.Y); ok {
+						canon = v
+					}
+				}
+			}
+			return true
+		})
+		if canon == "" {
+			return fmt.Errorf("%s: canonical pattern comparison not found", fn)
+		}
+		urlCanon = append(urlCanon, canon)
 		mc := fg.CallsNamed(fd, "MustCompile")
 		if len(mc) != 1 {
 			return fmt.Errorf("%s: expected one regexp.MustCompile", fn)
@@ -793,15 +848,20 @@ func c17(repo string, out *fg.Out) error {
 	fmt.Fprintf(w, "def originLayouts : List String := %s\n", leanStrList(layouts))
 	fmt.Fprintf(w, "def patternTimeBucket2Args : String := %s\ndef patternTimeBucket3Args : String := %s\ndef patternDateTrunc : String := %s\n",
 		fg.LeanStr(p2), fg.LeanStr(p3), fg.LeanStr(pd))
-	fmt.Fprintf(w, "/-- `buildURLDomainCASE`: (LIKE prefix bytes, substr start) per WHEN arm, in order; ELSE split_part(col,'/',1). -/\n")
-	fmt.Fprintf(w, "def caseFmt : String := %s\ndef caseArmsTbl : List (List UInt8 × Nat) := [", fg.LeanStr(caseFmt))
+	fmt.Fprintf(w, "/-- `buildURLDomainCASEExact`: (prefix bytes, substr start = len+1) per WHEN arm, in order; ELSE = the original call. -/\n")
+	fmt.Fprintf(w, "def caseArmsTbl : List (List UInt8 × Nat) := [")
 	for i, a := range armList {
 		if i > 0 {
 			fmt.Fprintf(w, ", ")
 		}
 		fmt.Fprintf(w, "(%s, %d)", leanBytes(a.Prefix), a.Start)
 	}
-	fmt.Fprintf(w, "]\ndef caseArgCount : Nat := %d\n", len(caseArgs))
+	fmt.Fprintf(w, "]\ndef casePrefixes : List String := %s\n", leanStrList(casePrefixes))
+	fmt.Fprintf(w, "def caseWhenFmt : String := %s\n", fg.LeanStr(caseWhenFmt))
+	fmt.Fprintf(w, "def caseLikeTail : String := \"_%%\"\ndef caseLikeTailSlash : String := \"_%%/%%\"\n")
+	fmt.Fprintf(w, "def caseGuardFmt : String := \" AND position(chr(10) in %%s) = 0\"\n")
+	fmt.Fprintf(w, "/-- the only regexes (after `\\/` → `/`) for which the rewrite fires: REGEXP_REPLACE, REGEXP_EXTRACT. -/\n")
+	fmt.Fprintf(w, "def urlCanonicalPatterns : List String := %s\n", leanStrList(urlCanon))
 	fmt.Fprintf(w, "def urlTriggerPatterns : List String := %s\n", leanStrList(urlTriggers))
 	fmt.Fprintf(w, "def likePattern1 : String := %s\ndef likePattern2 : String := %s\n", fg.LeanStr(pl1), fg.LeanStr(pl2))
 	fmt.Fprintf(w, "/-- guard of pattern 2: no reordering when the text before the empty check matches this. -/\ndef likeOrGuard : String := %s\n", fg.LeanStr(orGuard))
@@ -821,7 +881,7 @@ func c17(repo string, out *fg.Out) error {
 	out.JSON["tb3_fmt"], out.JSON["tb2_fmt"], out.JSON["dt_fmt"] = fmt3, fmt2, fmtD
 	out.JSON["tb_units"], out.JSON["dt_units"] = tbUnits, dtUnits
 	out.JSON["origin_layouts"] = layouts
-	out.JSON["case_fmt"] = caseFmt
+	out.JSON["case_when_fmt"] = caseWhenFmt
 	out.JSON["case_arms"] = armList
 	out.JSON["like_order1"], out.JSON["like_order2"] = order1, order2
 	out.JSON["apply_sites"] = applied
